@@ -118,6 +118,197 @@ m("limit-go-ignores-error", ["C02"],
 m("filter-annotation-inverted-fetch", ["C03"],
   ("extendedcopy.go", "			if p.Annotations == nil {", "			if p.Annotations != nil {"))
 
+# ---- stores (C05-C10, C18) ----
+m("oci-rename-before-verify", ["C05"],
+  ("internal/ioutil/io.go", """	if _, err := io.CopyBuffer(dst, vr, buf); err != nil {
+		return fmt.Errorf("copy failed: %w", err)
+	}
+	return vr.Verify()""", """	if _, err := io.CopyBuffer(dst, vr, buf); err != nil {
+		return fmt.Errorf("copy failed: %w", err)
+	}
+	vr.Verify()
+	return nil"""))
+m("verify-ignores-trailing", ["C05"],
+  ("content/reader.go", """	if err := ensureEOF(vr.base.R); err != nil {
+		vr.err = err
+		return vr.err
+	}""", ""))
+m("oci-write-blob-in-place", ["C05", "C10"],
+  ("content/oci/storage.go", """	fp, err := os.CreateTemp(s.ingestRoot, expected.Digest.Encoded()+"_*")""",
+   """	fp, err := os.Create(filepath.Join(s.root, "blobs", expected.Digest.Algorithm().String(), expected.Digest.Encoded()))"""),
+  ("content/oci/storage.go", """	if err := os.Rename(ingest, target); err != nil {""", """	if err := error(nil); ingest != target && err != nil {"""))
+m("memory-store-before-verify", ["C05"],
+  ("internal/cas/memory.go", """	value, err := contentpkg.ReadAll(content, expected)
+	if err != nil {
+		return err
+	}""", """	_ = contentpkg.ReadAll
+	value, err := io.ReadAll(content)
+	if err != nil {
+		return err
+	}"""))
+m("tag-without-existence-check", ["C06"],
+  ("content/memory/memory.go", """	if !exists {
+		return fmt.Errorf("%s: %s: %w", desc.Digest, desc.MediaType, errdef.ErrNotFound)
+	}
+	return s.resolver.Tag(ctx, desc, reference)""", """	_ = exists
+	_ = fmt.Errorf
+	_ = errdef.ErrNotFound
+	return s.resolver.Tag(ctx, desc, reference)"""))
+m("oci-untag-not-saving", ["C08", "C06"],
+  ("content/oci/oci.go", """	s.tagResolver.Untag(reference)
+	if s.AutoSaveIndex {
+		return s.saveIndex()
+	}
+	return nil
+}""", """	s.tagResolver.Untag(reference)
+	return nil
+}"""))
+m("memory-push-no-duplicate-check", ["C06"],
+  ("internal/cas/memory.go", """	if _, exists := m.content.LoadOrStore(key, value); exists {
+		return fmt.Errorf("%s: %s: %w", key.Digest, key.MediaType, errdef.ErrAlreadyExists)
+	}
+	return nil""", """	m.content.Store(key, value)
+	return nil"""),
+  ("internal/cas/memory.go", """	if _, exists := m.content.Load(key); exists {
+		return fmt.Errorf("%s: %s: %w", key.Digest, key.MediaType, errdef.ErrAlreadyExists)
+	}
+""", ""))
+m("graph-remove-keeps-outgoing-edges", ["C07"],
+  ("internal/graph/memory.go", """		predecessorEntry := m.predecessors[successorKey]
+		predecessorEntry.Delete(nodeKey)
+""", """		predecessorEntry := m.predecessors[successorKey]
+"""))
+m("graph-index-skips-subject", ["C07"],
+  ("content/graph.go", """		var nodes []ocispec.Descriptor
+		if index.Subject != nil {
+			nodes = append(nodes, *index.Subject)
+		}
+		return append(nodes, index.Manifests...), nil""", """		var nodes []ocispec.Descriptor
+		return append(nodes, index.Manifests...), nil"""))
+m("loadindex-no-indexall", ["C07", "C08"],
+  ("content/oci/readonlyoci.go", """		plain := descriptor.Plain(desc)
+		if err := graph.IndexAll(ctx, fetcher, plain); err != nil {
+			return err
+		}
+	}
+	return nil
+}
+
+// resolveBlob""", """		plain := descriptor.Plain(desc)
+		if err := graph.Index(ctx, fetcher, plain); err != nil {
+			return err
+		}
+	}
+	return nil
+}
+
+// resolveBlob"""))
+m("saveindex-drops-multi-tag", ["C08"],
+  ("content/oci/oci.go", """			manifests = append(manifests, desc)
+			// mark the digest as tagged for deduplication in step 2
+			tagged.Add(desc.Digest)""", """			if !tagged.Contains(desc.Digest) {
+				manifests = append(manifests, desc)
+			}
+			tagged.Add(desc.Digest)"""))
+m("loadindex-ignores-refname", ["C08"],
+  ("content/oci/readonlyoci.go", """		if ref := desc.Annotations[ocispec.AnnotationRefName]; ref != "" {""", """		if ref := desc.Annotations[ocispec.AnnotationRefName]; ref != "" && len(ref) > 2 {"""))
+m("tarfs-offset-error", ["C08"],
+  ("internal/fs/tarfs/tarfs.go", "	if _, err := tarFile.Seek(entry.pos, io.SeekStart); err != nil {", "	if _, err := tarFile.Seek(entry.pos+1, io.SeekStart); err != nil {"))
+m("istagged-always-false", ["C09"],
+  ("content/oci/oci.go", """	tagSet := s.tagResolver.TagSet(desc)
+	if tagSet.Contains(string(desc.Digest)) {
+		return len(tagSet) > 1
+	}
+	return len(tagSet) > 0""", """	tagSet := s.tagResolver.TagSet(desc)
+	_ = tagSet
+	return false"""))
+m("graph-dangling-ignores-other-predecessors", ["C09"],
+  ("internal/graph/memory.go", """		if len(predecessorEntry) == 0 {
+			delete(m.predecessors, successorKey)""", """		if len(predecessorEntry) >= 0 {
+			delete(m.predecessors, successorKey)"""))
+m("gc-sweeps-tagged-blobs", ["C09"],
+  ("content/oci/oci.go", """		plain := descriptor.Plain(desc)
+		if err := graph.IndexAll(ctx, s.storage, plain); err != nil {
+			return err
+		}
+		tagged.Add(desc.Digest)""", """		plain := descriptor.Plain(desc)
+		if err := graph.Index(ctx, s.storage, plain); err != nil {
+			return err
+		}
+		tagged.Add(desc.Digest)"""))
+m("delete-removes-blob-before-index", ["C10"],
+  ("content/oci/oci.go", """	danglings := s.graph.Remove(target)
+	if untagged && s.AutoSaveIndex {
+		err := s.saveIndex()
+		if err != nil {
+			return nil, err
+		}
+	}
+	if err := s.storage.Delete(ctx, target); err != nil {
+		return nil, err
+	}
+	return danglings, nil""", """	danglings := s.graph.Remove(target)
+	if err := s.storage.Delete(ctx, target); err != nil {
+		return nil, err
+	}
+	if untagged && s.AutoSaveIndex {
+		err := s.saveIndex()
+		if err != nil {
+			return nil, err
+		}
+	}
+	return danglings, nil"""))
+m("index-write-in-place", ["C10"],
+  ("content/oci/oci.go", """	tmpPath := s.indexPath + ".tmp"
+	if err := os.WriteFile(tmpPath, indexJSON, 0666); err != nil {
+		return err
+	}
+	if err := os.Rename(tmpPath, s.indexPath); err != nil {
+		os.Remove(tmpPath)
+		return err
+	}
+	return nil""", """	return os.WriteFile(s.indexPath, indexJSON, 0666)"""))
+m("cred-write-in-place", ["C18"],
+  ("registry/remote/credentials/internal/config/config.go", """	// overwrite the config file
+	if err := os.Rename(ingest, cfg.path); err != nil {
+		return fmt.Errorf("failed to save config file: %w", err)
+	}
+	return nil""", """	os.Remove(ingest)
+	if err := os.WriteFile(cfg.path, jsonBytes, 0600); err != nil {
+		return fmt.Errorf("failed to save config file: %w", err)
+	}
+	return nil"""))
+m("cred-rewrite-known-fields-only", ["C18"],
+  ("registry/remote/credentials/internal/config/config.go", """	jsonBytes, err := json.MarshalIndent(cfg.content, "", "\\t")""", """	jsonBytes, err := json.MarshalIndent(map[string]json.RawMessage{configFieldAuths: authsBytes}, "", "\\t")"""))
+m("cred-save-outside-lock", ["C18"],
+  ("registry/remote/credentials/internal/config/config.go", """	cfg.rwLock.Lock()
+	defer cfg.rwLock.Unlock()
+
+	authCfg := NewAuthConfig(cred)
+	authCfgBytes, err := json.Marshal(authCfg)
+	if err != nil {
+		return fmt.Errorf("failed to marshal auth field: %w", err)
+	}
+	cfg.authsCache[serverAddress] = authCfgBytes
+	return cfg.saveFile()""", """	authCfg := NewAuthConfig(cred)
+	authCfgBytes, err := json.Marshal(authCfg)
+	if err != nil {
+		return fmt.Errorf("failed to marshal auth field: %w", err)
+	}
+	cfg.rwLock.Lock()
+	cfg.authsCache[serverAddress] = authCfgBytes
+	authsBytes, _ := json.Marshal(cfg.authsCache)
+	cfg.content[configFieldAuths] = authsBytes
+	jsonBytes, _ := json.MarshalIndent(cfg.content, "", "\t")
+	cfg.rwLock.Unlock()
+	ingest, err := ioutil.Ingest(filepath.Dir(cfg.path), bytes.NewReader(jsonBytes))
+	if err != nil {
+		return err
+	}
+	return os.Rename(ingest, cfg.path)"""))
+m("cred-wrong-mode", ["C18"],
+  ("registry/remote/credentials/internal/ioutil/ioutil.go", "tempFile.Chmod(0600)", "tempFile.Chmod(0644)"))
+
 
 def sh(cmd, **kw):
     return subprocess.run(cmd, **kw)
